@@ -591,7 +591,7 @@ impl PageLoader {
         let bucket = loop {
             match load.probe_sequence.next(&self.meta_map) {
                 ProbeResult::Tombstone(_) => continue,
-                ProbeResult::Empty(_) => return false,
+                ProbeResult::Empty(_) | ProbeResult::Exhausted => return false,
                 ProbeResult::PossibleHit(bucket) => break BucketIndex(bucket),
             }
         };
@@ -687,6 +687,7 @@ fn allocate_bucket(
         }
         match probe_seq.next(&meta_map) {
             ProbeResult::PossibleHit(_) => continue,
+            ProbeResult::Exhausted => return None,
             ProbeResult::Tombstone(bucket) | ProbeResult::Empty(bucket) => {
                 meta_map.set_full(bucket as usize, probe_seq.hash);
                 return Some(BucketIndex(bucket));
@@ -716,6 +717,8 @@ enum ProbeResult {
     PossibleHit(u64),
     Empty(u64),
     Tombstone(u64),
+    /// Every bucket reachable by the probe sequence has been visited.
+    Exhausted,
 }
 
 impl ProbeSequence {
@@ -731,6 +734,13 @@ impl ProbeSequence {
     // probe until there is a possible hit or an empty bucket is found
     fn next(&mut self, meta_map: &MetaMap) -> ProbeResult {
         loop {
+            // The triangular probe sequence modulo the table length repeats after twice the table
+            // length. Past that point neither an empty bucket, nor a tombstone, nor a possible hit
+            // will ever show up: give up instead of looping forever on a full table.
+            if self.step >= 2 * meta_map.len() as u64 {
+                return ProbeResult::Exhausted;
+            }
+
             // Triangular probing
             self.bucket += self.step;
             self.step += 1;
